@@ -313,7 +313,10 @@ class ModelLoader(object):
         inst = metamodel.new(stmt.kind)
         for attr, value in zip(metaclass.attributes, stmt.values):
             name, ty = attr
-            py_value = deserialize_value(ty, value)
+            try:
+                py_value = deserialize_value(ty, value)
+            except ValueError:
+                py_value = None
             if py_value is None:
                 raise ParsingException("%s:%d:unable to deserialize "\
                                        "%s to a %s" % (stmt.filename,
@@ -348,12 +351,15 @@ class ModelLoader(object):
             uname = name.upper()
             if uname in inst_unames:
                 idx = inst_unames.index(uname)
-                value = deserialize_value(ty, stmt.values[idx])
+                try:
+                    value = deserialize_value(ty, stmt.values[idx])
+                except ValueError:
+                    value = None
                 if value is None:
                     raise ParsingException("%s:%d:unable to deserialize "\
                                            "%s to a %s" % (stmt.filename,
                                                            stmt.lineno,
-                                                           value,
+                                                           stmt.values[idx],
                                                            ty))
             else:
                 value = None
